@@ -372,7 +372,7 @@ class World:
             data['partition'] = srv['partition']
         if srv.get('traits'):
             data['traits'] = list(srv['traits'])
-        data['up_since'] = T0 - 1000
+        data['up_since'] = srv.get('up_since', T0 - 1000)
         self.b.raw_put('/servers/' + sname(srv['id']), data)
 
     def _put_app(self, i, spec):
@@ -536,6 +536,8 @@ class World:
             b.raw_put('/server.presence/' + sname(op[1]), {})
             m.process_server_presence(b.list('/server.presence'))
         elif k == 'ServerRecord':
+            if op[1].get('up_since') == 'now':
+                op = [op[0], dict(op[1], up_since=self.now)]
             self._put_server(op[1])
             self._event(0, 'servers', [sname(op[1]['id'])])
             self._deliver()
@@ -1233,9 +1235,11 @@ def gen_app(rng, groups):
         spec['lease'] = rng.choice([600, 3600])
     if rng.random() < 0.4:
         spec['prio'] = rng.randint(1, 100)
+        if AFF_LIMITS.get('_sched') and rng.random() < 0.25:
+            spec['prio'] = 0          # a declared priority 0 is a real priority (last of its rank), not "unset"
     if rng.random() < 0.1:
         spec['traits'] = ['ssd']
-    if AFF_LIMITS.get(spec['proid']):
+    if isinstance(AFF_LIMITS.get(spec['proid']), dict):
         spec['affinity_limits'] = dict(AFF_LIMITS[spec['proid']])
     return spec
 
@@ -1257,7 +1261,9 @@ def gen_allocations(rng, partitions):
             out.append({'name': '%s/x' % proid, 'partition': rng.choice(['_default'] + partitions * 2),
                         'memory': '%dM' % rng.choice([0, 1000, 3000]), 'cpu': '%d%%' % rng.choice([0, 100, 300]),
                         'disk': '%dM' % rng.choice([0, 1000, 3000]), 'rank': rng.choice([50, 100, 100]),
-                        'rank_adjustment': 0, 'traits': [],
+                        'rank_adjustment': 0,
+                        'traits': (rng.choice([['ssd'], ['nosuchtrait'], ['ssd', 'nosuchtrait']])
+                                   if AFF_LIMITS.get('_sched') and rng.random() < 0.25 else []),
                         'assignments': [{'pattern': '%s.*' % proid, 'priority': rng.randint(1, 60)}]})
     return out
 
@@ -1265,6 +1271,7 @@ def gen_allocations(rng, partitions):
 def gen_case(rng, profile='c10', max_ops=None):
     AFF_LIMITS.clear()
     if profile == 'sched':
+        AFF_LIMITS['_sched'] = True
         for pr in PROIDS:
             if rng.random() < 0.5:
                 AFF_LIMITS[pr] = rng.choice([{'server': 1}, {'rack': 1}, {'server': 1, 'rack': 2}, {'rack': 2}, {'cell': 3}])
@@ -1300,7 +1307,7 @@ def gen_case(rng, profile='c10', max_ops=None):
         # stale placement records behind, with consequences for every other statement)
         weights.update({'ServerDeleteApi': 0, 'DeleteRace': 0, 'Deliver': 0, 'Allocations': 5, 'ServerRecord': 6,
                         'ServerState': 5, 'Priority': 4, 'AppsBlacklist': 2, 'IdentityGroup': 4, 'Schedule': 14,
-                        'Restart': 3, 'PresenceDown': 5, 'PresenceUp': 5})
+                        'Restart': 3, 'PresenceDown': 5, 'PresenceUp': 5, 'ServerRecreate': 3, 'ServerReboot': 3})
     if profile == 'c05':
         # identity groups resized, deleted and re-created - also twice in a row with no cycle in between - while
         # instances hold identities; restarts force recorded identities back
@@ -1383,6 +1390,23 @@ def gen_case(rng, profile='c10', max_ops=None):
             ops.append(['IdentityGroup', g, rng.randint(0, 4)])
         elif k == 'IdentityGroupDeleted' and gids:
             ops.append(['IdentityGroupDeleted', rng.choice(gids)])
+        elif k == 'ServerRecreate' and existing:
+            # the server's record is deleted and declared again between two cycles, both events handled at once
+            i = rng.choice(existing)
+            srv = {kk: vv for kk, vv in sstate[i].items() if kk in ('id', 'rack', 'cap', 'partition', 'traits')}
+            ops.append(['ServerDeleteApi', i, True])
+            ops.append(['ServerRecord', srv])
+            if sstate[i]['up']:
+                ops.append(['PresenceBounce', i])
+        elif k == 'ServerReboot' and existing:
+            # an ordinary reboot: presence lost, the node comes back with the same record but a new boot time
+            i = rng.choice(existing)
+            srv = {kk: vv for kk, vv in sstate[i].items() if kk in ('id', 'rack', 'cap', 'partition', 'traits')}
+            ops.append(['PresenceDown', i])
+            ops.append(['Tick', rng.choice([5, 60])])
+            ops.append(['ServerRecord', dict(srv, up_since='now')])
+            ops.append(['PresenceUp', i])
+            sstate[i]['up'] = True
         elif k == 'GroupBounce' and gids:
             # two identity-group events handled back to back (the master cycles only every other second): shrunk and
             # grown again, or deleted and created again, while instances hold the upper identities; then a newcomer
